@@ -193,7 +193,8 @@ Lemma feed_scenario_line m f line alias name :
   scenario_line (m_kw m) line alias name ->
   exists m', feed (ROk m) line = ROk m' /\ m_st m' = StScenario /\
              at_feature_scenario m' (with_items f (FScen (new_scenario m alias name) :: f_items f)) (new_scenario m alias name) (f_items f) /\
-             m_line m' = S (m_line m) /\ m_kw m' = m_kw m /\ m_tags m' = [] /\ m_lang m' = m_lang m /\ m_table m' = m_table m.
+             m_line m' = S (m_line m) /\ m_kw m' = m_kw m /\ m_tags m' = [] /\ m_lang m' = m_lang m /\ m_table m' = m_table m /\
+             m_in_examples m' = m_in_examples m.
 Proof.
   intros C F ST [ND NB NC NT NS NR SC].
   set (m1 := upd_line m (S (m_line m))).
@@ -202,7 +203,8 @@ Proof.
      let mx := upd_st (build_scenario m0 false alias name) StScenario in
      m_st mx = StScenario /\
      at_feature_scenario mx (with_items f (FScen (new_scenario m alias name) :: f_items f)) (new_scenario m alias name) (f_items f) /\
-     m_line mx = S (m_line m) /\ m_kw mx = m_kw m /\ m_tags mx = [] /\ m_lang mx = m_lang m /\ m_table mx = m_table m0).
+     m_line mx = S (m_line m) /\ m_kw mx = m_kw m /\ m_tags mx = [] /\ m_lang mx = m_lang m /\ m_table mx = m_table m0 /\
+     m_in_examples mx = m_in_examples m0).
   { intros m0 C0 F0 L0 K0 T0 G0 mx. unfold mx, build_scenario, add_item. rewrite C0, F0.
     unfold at_feature_scenario, new_scenario, with_items. cbn. rewrite L0, T0. repeat split; assumption. }
   rewrite (feed_nonblank m line NB). fold m1. rewrite (action_dispatch m1 line NB NC). cbn [m1 upd_line m_st].
@@ -286,7 +288,7 @@ Proof.
   - exists m, f. cbn [flat_map fold_left expected_scenarios]. rewrite app_nil_r. split; [reflexivity|]. split; [exact C|].
     split; [exact F|]. split; [reflexivity|]. split; reflexivity.
   - inversion OK as [|? ? H1 OK']. subst. cbn in H1. destruct H1 as [SL STP].
-    destruct (feed_scenario_line m f line alias name C F ST SL) as [m1 [FD1 [ST1 [W1 [L1 [K1 [T1 [G1 TB1]]]]]]]].
+    destruct (feed_scenario_line m f line alias name C F ST SL) as [m1 [FD1 [ST1 [W1 [L1 [K1 [T1 [G1 [TB1 _]]]]]]]]].
     assert (STP1 : Forall (fun x => let '(l, t, k, text) := x in step_line (m_kw m1) l t k text) steps) by (now rewrite K1).
     destruct (steps_of_a_scenario steps m1 _ _ (f_items f) (or_introl ST1) W1 STP1) as [m2 [f2 [s2 [FD2 [ST2 [W2 [FR2 [L2 [ES EF]]]]]]]]].
     destruct W2 as [A2 [B2 [C2 D2]]].
